@@ -105,6 +105,7 @@ type event struct {
 	snap  snapshot
 	snap2 snapshot // X: after the close
 	ans   [nAddr]string
+	win   bool         // a retired config's listeners may be closing concurrently (after W/J, before drained)
 	hold  [nAddr][]int // harness-side: generations with an open (wrapped, not yet closed) listener, at snapshot time
 	res   string       // F: answer of the in-flight request
 }
@@ -153,6 +154,7 @@ type runner struct {
 	closed map[int]int
 
 	hi, lo    atomic.Int64 // generations that may legitimately answer right now: lo..hi
+	epoch     atomic.Int64 // odd while listeners of a retired config may be closing
 	loading   int          // index of the load in progress
 	curGen    int          // generation of the running config (-1: none)
 	swapped   bool
@@ -217,7 +219,7 @@ const (
 )
 
 func (r *runner) record(kind byte, gen int, mod string, probe bool) *event {
-	ev := &event{kind: kind, gen: gen, mod: mod, load: r.loading}
+	ev := &event{kind: kind, gen: gen, mod: mod, load: r.loading, win: r.epoch.Load()%2 == 1}
 	r.evMu.Lock()
 	ev.snap = r.snapshot()
 	ev.hold = r.holdersLocked()
@@ -243,7 +245,22 @@ func (r *runner) record(kind byte, gen int, mod string, probe bool) *event {
 	return ev
 }
 
+func (r *runner) openWindow() {
+	if r.epoch.Load()%2 == 0 {
+		r.epoch.Add(1)
+	}
+}
+
+func (r *runner) closeWindow() {
+	if r.epoch.Load()%2 == 1 {
+		r.epoch.Add(1)
+	}
+}
+
 func (r *runner) mark(kind byte, k int) {
+	if kind == 'W' || kind == 'J' {
+		r.openWindow()
+	}
 	ev := &event{kind: kind, gen: k, load: r.loading}
 	r.evMu.Lock()
 	ev.snap = r.snapshot()
